@@ -682,7 +682,7 @@ func c17ClientAPI(r *vfRun) {
 		return
 	}
 	os.WriteFile(v.root+"/reg", []byte("0123456789"), 0o644)
-	times := []int64{1, 86400, 946684800, 1<<31 - 1, 1 << 31, 1<<31 + 12345, 2240000000, 4000000000, 1<<32 - 1}
+	times := []int64{0, 1, 86400, 946684800, 1<<31 - 1, 1 << 31, 1<<31 + 12345, 2240000000, 4000000000, 1<<32 - 1}
 	ids := []int{0, 1, 1234, 65534, 65535, 1<<31 - 1, 1 << 31, 1<<32 - 2}
 	sizes := []int64{0, 1, 4095, 4096, 1<<31 - 1, 1 << 31, 1<<32 + 5, 1 << 40, 10}
 	var mismatch string
